@@ -37,7 +37,7 @@ class Finding:
 
     def text(self):
         loc = '%s:%s' % (self.file, self.line) if self.line else self.file
-        w = (' | witness: %s' % (self.witness,)) if self.witness is not None else ''
+        w = (' | witness: %r' % (self.witness,)) if self.witness is not None else ''
         return '%s %s [%s] %s: %s%s' % (self.prop, self.rule, self.construct, loc, self.message, w)
 
 
